@@ -150,6 +150,7 @@ func (pmt *Payment) ValidateWithContext(ctx context.Context) error {
 	return tax.ValidateStructWithContext(ctx, pmt,
 		validation.Field(&pmt.Regime),
 		validation.Field(&pmt.Addons),
+		validation.Field(&pmt.Tags.List, tax.TagsIn(supportedTagsFor(pmt.RegimeDef(), pmt.AddonDefs(), ShortSchemaPayment)...)),
 		validation.Field(&pmt.UUID),
 		validation.Field(&pmt.Type,
 			validation.Required,
